@@ -30,7 +30,7 @@ def generate(streams, tier):
                      state_modes=[("str", 3), ("int_sorted", 2)])
     n = world["n"]
     rd = streams.s("data")
-    rows = W.gen_rows(rd, world, rd.choice([8, 15, 30, 60, 120] + ([200, 300] if wide else [])), sharpen=rd.random() < 0.4)
+    rows = W.gen_rows(rd, world, rd.choice([60, 120, 200, 300, 300]) if wide else rd.choice([8, 15, 30, 60, 120]), sharpen=rd.random() < (0.6 if wide else 0.4))
     rw = streams.s("workload")
     ops = []
     for _ in range(rw.randint(1, 3)):
@@ -50,6 +50,9 @@ def generate(streams, tier):
                         "black": black, "white": white, "max_indegree": rw.choice([None, 1, 1, 2]), "tabu": rw.choice([0, 0, 0, 3, 100]),
                         "epsilon": rw.choice([1e-4, 1e-4, 0.5, 1e-9]), "max_iter": rw.choice([1000000, 1000000, 1, 2, 5]), "use_cache": rw.random() < 0.7,
                         "cache_size": rw.choice([1, 3, 10000])})
+            if wide and rw.random() < 0.4:
+                # a long unconstrained climb from the empty graph with the tabu list disabled: moves made early have to be undone later
+                ops[-1].update({"start": [], "fixed": [], "black": None, "white": None, "max_indegree": None, "tabu": 0, "epsilon": 1e-4, "max_iter": 1000000})
         elif k == "exhaustive":
             ops.append({"op": "exhaustive", "score": rw.choice(["k2", "bdeu", "bic", "aic"]), "use_cache": rw.random() < 0.5})
         else:
